@@ -239,8 +239,15 @@ func (r *txRunner) apply(op txOp) {
 		if len(fenc) == 0 || len(penc) == 0 {
 			return
 		}
-		for i, pk := range []tds.Package{fpkg, ppkg} {
-			enc := [][]byte{fenc, penc}[i]
+		pkgs, encs := []tds.Package{fpkg, ppkg}, [][]byte{fenc, penc}
+		if op.Kind == "only" {
+			// the format was announced earlier (the answer to a prepare): the client installs it with
+			// SetLastPkgTx and sends the data package alone
+			r.ch.SetLastPkgTx(fpkg)
+			pkgs, encs = pkgs[1:], encs[1:]
+		}
+		for i, pk := range pkgs {
+			enc := encs[i]
 			r.msg = append(r.msg, enc...)
 			r.tr.Emit(Ev{"ev": "Queue", "n": len(enc), "ctx": cx, "typ": int(r.ch.CurrentHeaderType)})
 			err := r.ch.QueuePackage(r.ctxFor(op), pk)
@@ -501,7 +508,7 @@ func txMain(args []string) error {
 				ops = append(ops, txOp{Op: "Type", N: hdrTypes[rng.Intn(len(hdrTypes))]})
 			}
 			if rng.Intn(5) == 0 { // packages that depend on the package queued before them
-				ops = append(ops, txOp{Op: "Params", N: rng.Intn(2)})
+				ops = append(ops, txOp{Op: "Params", N: rng.Intn(2), Kind: []string{"", "only"}[rng.Intn(2)]})
 			}
 			if rng.Intn(12) == 0 { // C13: a send with a cancelled context writes nothing
 				ops = append(ops, txOp{Op: "Queue", N: total, Ctx: "cancelled"})
